@@ -67,6 +67,16 @@ fn write_replay(id: &str, seed: u64, idx: u64, n: usize, v: &serde_json::Value) 
 }
 
 /// Re-execute a replay file in a fresh process; true if it reproduces a violation.
+pub fn confirm_replay_once(path: &str) -> Option<bool> {
+    let exe = std::env::current_exe().ok()?;
+    let out = std::process::Command::new(exe).arg("replay").arg(path).output().ok()?;
+    match out.status.code() {
+        Some(1) => Some(true),
+        Some(0) => Some(false),
+        _ => None,
+    }
+}
+
 pub fn confirm_replay(path: &str) -> Option<bool> {
     let exe = std::env::current_exe().ok()?;
     // up to three fresh processes: they differ in address-space layout, which is the one thing a
@@ -217,6 +227,7 @@ pub fn run_check(def: &PropertyDef, tier: &str, seed: u64) -> i32 {
     let mut new_violations = 0u64;
     let mut known_hits: BTreeMap<String, u64> = BTreeMap::new();
     let mut reported: BTreeMap<String, u64> = BTreeMap::new();
+    let mut history_attempts = 0;
     for (n, (idx, v)) in m.violations.iter().enumerate() {
         if let Some((_, sig, what)) = known.known.iter().find(|(p, s, _)| p == def.id && *s == v.signature) {
             *known_hits.entry(format!("{sig} {what}")).or_insert(0) += 1;
@@ -229,7 +240,38 @@ pub fn run_check(def: &PropertyDef, tier: &str, seed: u64) -> i32 {
             continue; // at most three replay files per signature
         }
         let path = write_replay(def.id, seed, *idx, n, &v.replay);
-        let confirmed = confirm_replay(&path);
+        let mut confirmed = confirm_replay(&path);
+        let mut history_note = String::new();
+        if confirmed == Some(false) && history_attempts < 3 {
+            // The world alone does not reproduce in a fresh process. The worker that found it was
+            // a long-lived process: re-create ITS history — the cases of the same shard that ran
+            // before — in a fresh process, doubling the length of the history suffix until the
+            // violation shows again. Exact, but it can be slow; attempted for a few findings only.
+            history_attempts += 1;
+            let shard = idx % workers as u64;
+            let before = idx / workers as u64; // number of earlier cases in the shard
+            let mut len = 1u64;
+            loop {
+                let l = len.min(before);
+                let first = idx - l * workers as u64;
+                let hv = serde_json::json!({
+                    "property": def.id, "class": v.class, "signature": v.signature, "verif_seed": seed,
+                    "by_worker_history": { "tier": tier, "seed": seed, "nshards": workers, "shard": shard, "first": first, "last": idx },
+                    "world_that_disagreed": v.replay.get("world"),
+                    "observed": v.replay.get("observed"),
+                });
+                let _ = std::fs::write(&path, serde_json::to_string_pretty(&hv).unwrap());
+                if confirm_replay_once(&path) == Some(true) {
+                    confirmed = Some(true);
+                    history_note = format!(" [only in a process that ran the {l} preceding cases of its worker shard: {}..{} step {}]", first, idx, workers);
+                    break;
+                }
+                if l >= before || l >= 4096 {
+                    break;
+                }
+                len *= 2;
+            }
+        }
         if confirmed == Some(false) {
             // a disagreement that a fresh process cannot reproduce from its replay file is not
             // reported as a violation: it is evidence of state leaking between cases of a worker
@@ -251,7 +293,7 @@ pub fn run_check(def: &PropertyDef, tier: &str, seed: u64) -> i32 {
                 None => "error",
             }
         );
-        println!("  {}", v.what);
+        println!("  {}{}", v.what, history_note);
     }
     for (k, n) in &known_hits {
         println!("KNOWN-FINDING: property={} {} (hit {} times)", def.id, k, n);
